@@ -289,7 +289,15 @@ def rule_r3(ctx) -> List[R.Inst]:
         else:
             # the tail value is the very expression the header declares with #LNOBJ (compared after inlining helpers / locals)
             hdr_expr = _lnobj_expr(ctx)
-            same = hdr_expr is not None and _norm(unparse(el[2])) == _norm(hdr_expr) and "ln_end_channel" in hdr_expr
+            tv = el[2]
+            if isinstance(tv, ast.Name):
+                # a local bound once (the id computed before the families are built)
+                ds = [x.value for x in walk_no_nested(fn.node) if isinstance(x, ast.Assign) and len(x.targets) == 1 and
+                      isinstance(x.targets[0], ast.Name) and x.targets[0].id == tv.id]
+                if len(ds) == 1:
+                    tv = ds[0]
+                    val = _norm(show(tv))
+            same = hdr_expr is not None and _norm(unparse(tv)) == _norm(hdr_expr) and "ln_end_channel" in hdr_expr
             insts.append(R.ok(rid, key, file, st.lineno, idiom="tail object = the id written to #LNOBJ (from self.ln_end_channel)")
                          if val == "self.ln_end_channel" or same else
                          R.viol(rid, key, file, st.lineno,
@@ -699,6 +707,104 @@ def rule_r8(ctx) -> List[R.Inst]:
 
 
 
+def rule_r10(ctx) -> List[R.Inst]:
+    """disjoint value domains: in the note channels the ONLY thing that tells the end of a hold from a hit is the object id — the
+    reader closes a hold on the id declared by #LNOBJ (C04.R6).  R3 shows tails carry that id M and hits / hold heads carry
+    `sample_map.get(sample, default)`, i.e. a key of self.samples or the default.  So (a) the sample-id map must not hand out M and
+    (b) the default must differ from M; otherwise a hit is written as 'end of hold' — one object too few, one hold too many."""
+    M = ctx.M
+    rid = "C05.R10"
+    fn, fam, _ = families(ctx)
+    file = M.mods[fn.mod].rel
+    if "hold_tails" not in fam or len(fam["hold_tails"][0].elem.elts) != 3:
+        return [R.undec(rid, "marker", file, fn.node.lineno, "hold-tail family not found: the marker expression is unknown")]
+    top = list(fn.node.body)
+
+    def single_def(name):
+        ds = [x for x in walk_no_nested(fn.node) if isinstance(x, ast.Assign) and len(x.targets) == 1 and
+              isinstance(x.targets[0], ast.Name) and x.targets[0].id == name]
+        return ds[0] if len(ds) == 1 else None
+
+    def resolve_node(e, depth=0):
+        if isinstance(e, ast.Name) and depth < 4:
+            d = single_def(e.id)
+            if d is not None and not isinstance(d.value, (ast.DictComp, ast.ListComp)):
+                return resolve_node(d.value, depth + 1)
+        return e
+
+    resolve = lambda e: _norm(unparse(resolve_node(e)))
+    marker = unparse(resolve_node(fam["hold_tails"][0].elem.elts[2]))
+    marker_n = _norm(marker)
+    is_m = lambda e: resolve(e) == marker_n
+
+    def raising_guards():
+        """top-level `if <test>: raise` statements that precede the first family"""
+        first = min(st.lineno for _, st in fam.values())
+        for st in top:
+            if isinstance(st, ast.If) and st.lineno < first and st.body and isinstance(st.body[-1], ast.Raise) and not st.orelse:
+                yield st
+
+    def relates(test, a_pred, b_pred, ops):
+        for c in ast.walk(test):
+            if isinstance(c, ast.Compare) and len(c.ops) == 1 and isinstance(c.ops[0], ops):
+                l, r = c.left, c.comparators[0]
+                rs = r.elts if isinstance(r, (ast.Tuple, ast.List, ast.Set)) else [r]
+                if (a_pred(l) and any(b_pred(x) for x in rs)) or (b_pred(l) and any(a_pred(x) for x in rs)):
+                    return True
+        return False
+
+    insts = []
+    # (a) the ids the map can hand out exclude the marker
+    smd = single_def("sample_map")
+    key = "sample-ids-exclude-marker"
+    samples_src = lambda e: "self.samples" in _norm(unparse(e)) or (isinstance(e, ast.Name) and e.id == "sample_map") or \
+        (isinstance(e, ast.Call) and isinstance(e.func, ast.Attribute) and isinstance(e.func.value, ast.Name) and e.func.value.id == "sample_map")
+    if smd is None or not isinstance(smd.value, ast.DictComp):
+        insts.append(R.undec(rid, key, file, fn.node.lineno, "the sample -> id map is not a single dict comprehension over self.samples"))
+    else:
+        dc = smd.value
+        g = dc.generators[0]
+        idvar = dc.value.id if isinstance(dc.value, ast.Name) else None
+        is_id = lambda e: isinstance(e, ast.Name) and e.id == idvar
+        filt = any(relates(t.operand, is_id, is_m, (ast.Eq, ast.In)) if isinstance(t, ast.UnaryOp) and isinstance(t.op, ast.Not) and
+                   isinstance(t.operand, ast.Compare) else
+                   isinstance(t, ast.Compare) and relates(t, is_id, is_m, (ast.NotEq, ast.NotIn)) for t in g.ifs)
+        guard = next((st for st in raising_guards() if relates(st.test, is_m, samples_src, (ast.In, ast.Eq))), None)
+        if filt:
+            insts.append(R.ok(rid, key, file, smd.lineno, idiom=f"the id map skips the #LNOBJ id: {unparse(g.ifs[0])}"))
+        elif guard is not None:
+            insts.append(R.ok(rid, key, file, guard.lineno, idiom=f"refused before writing: {unparse(guard.test)}"))
+        else:
+            insts.append(R.viol(rid, key, file, smd.lineno,
+                                f"hits and hold heads are written with an id of self.samples ({unparse(dc)}), hold tails with "
+                                f"{marker}; nothing keeps the two apart: when a sample's id IS the #LNOBJ id (the default ZZ is the last "
+                                f"#WAV id) every hit with that sample is written as the end of a hold and read back as one",
+                                construct="sample_map can hand out the #LNOBJ id"))
+    # (b) the default id of a sample-less object differs from the marker
+    key = "default-id-differs-from-marker"
+    defaults = []
+    for name in ("hits", "hold_heads"):
+        if name in fam and len(fam[name][0].elem.elts) == 3:
+            v = fam[name][0].elem.elts[2]
+            if isinstance(v, ast.Call) and call_name(v) == "get" and len(v.args) == 2:
+                defaults.append(v.args[1])
+    if not defaults:
+        insts.append(R.ok(rid, key, file, fn.node.lineno, idiom="no default id: an unknown sample is an error, not an object with a made-up id"))
+    else:
+        dtxt = {resolve(d) for d in defaults}
+        is_d = lambda e: resolve(e) in dtxt
+        guard = next((st for st in raising_guards() if relates(st.test, is_m, is_d, (ast.Eq, ast.In))), None)
+        if guard is not None:
+            insts.append(R.ok(rid, key, file, guard.lineno, idiom=f"refused before writing: {unparse(guard.test)}"))
+        else:
+            insts.append(R.viol(rid, key, file, defaults[0].lineno,
+                                f"an object without a known sample is written with the id {sorted(dtxt)}; nothing compares it with the "
+                                f"#LNOBJ id ({marker}): a chart whose #LNOBJ is that id (it is read from the file) has all its sample-less "
+                                f"hits written as ends of holds",
+                                construct="default object id may equal the #LNOBJ id"))
+    return insts
+
+
 def rule_r9(ctx) -> List[R.Inst]:
     """bounded write: a value formatted into a FIXED-WIDTH field of a line ('#' + measure as three digits — the reader slices
     characters 1..3) must be bounded before it is written; `:03` pads short values and does not cut long ones, so an object beyond
@@ -770,6 +876,7 @@ SPECS = [
     RuleSpec("C05.R7", rule_r7, 2, "A8", "write_file / write forward the channel layout and sample default they accept"),
     RuleSpec("C05.R8", rule_r8, 1, "A8", "contradiction: a field the header emits only when non-empty is not used unguarded as a written value in the body"),
     RuleSpec("C05.R9", rule_r9, 1, "A9", "bounded write: a value formatted into a fixed-width field of a line is bounded first"),
+    RuleSpec("C05.R10", rule_r10, 2, "A5", "disjoint value domains: no hit or hold head can be written with the #LNOBJ id that marks the end of a hold"),
     RuleSpec("C05.R6", rule_r6, 6, "A7", "writer timing map from every tempo point; slot = numerator * slots / (denominator * beats-per-measure)"),
     RuleSpec("C05.D", rule_dep, 1, "M0", "rules of the shared code (timing engine, list classes, stacker) that the operations of this property reach"),
 ]
